@@ -35,7 +35,7 @@ def _reply(rng, kind, text, k):
     return ev, data + "\r\n"
 
 def generate(rng, tier):
-    n = 300 if tier == "quick" else 6000
+    n = 300 if tier == "quick" else 25000
     cases = []
     for _ in range(n):
         hp = rng.random() < 0.95
